@@ -148,7 +148,9 @@ func genC07(m *M, budget int) {
 		for i := 0; i < 30; i++ {
 			var data []byte
 			cls := ""
-			switch m.rng.Intn(14) {
+			switch m.rng.Intn(18) {
+			case 14, 15, 16, 17: // every limb independently n's limb, n's limb +-1, 0 or all ones (above and below n)
+				cls, data = "limbwise_neighbour_of_n", be32(m.limbwiseNeighbour(bigN))
 			case 0:
 				cls, data = "nil", nil
 			case 1:
